@@ -183,7 +183,7 @@ fn mixed_case(t: &mut Tape, lower: &str) -> (String, &'static str) {
     (s, ["text-lower", "text-upper", "text-mixed"][mode])
 }
 
-fn main() {
+pub fn main() {
     let mut ck = Check::new("C05", "exploration");
     ck.rule("20-byte ids (uniform, all-zero, all-ff, nibble patterns, counting, one-byte) x hex_len 4..=40 (boundary lengths 4,5,39,40 boosted) x 1..6 candidate ids derived from the prefix id (same, one hex digit flipped at position n-1 / n / n+1 / inside, random tail, random); hex text 4..40 digits in lower/upper/mixed case. Non-trivial: odd hex_len with a candidate differing from the prefix id exactly in the masked nibble (digit n). Distinct by (id, hex_len, candidates) hash. `enum-nibbles` enumerates every (hex_len, flipped position, old nibble, new nibble) for fixed base ids.");
     ck.assume("the oracle is an independent model: lower-case hex rendering of the bytes (vp::hex), string slicing and lexicographic string comparison (equal to nibble-wise numeric comparison for lower-case hex)");
